@@ -110,6 +110,19 @@ theorem iterInit_cursor (D : Derive) (m : IterMode) (hm : m ≠ .nextAndBack) (s
   | table => simp only [iterInit] at hi; injection hi with e; exact ⟨_, e.symm⟩
   | tableInline => simp only [iterInit] at hi; injection hi with e; exact ⟨_, e.symm⟩
 
+/-- the function bodies the templates contain are exactly the ones the model accounts for: in particular the hand-written
+`next_and_back` struct implements `next`, `size_hint`, `next_back`, `len` and nothing else, so every other `Iterator` /
+`DoubleEndedIterator` method on it is `core`'s provided one (which is how `TRun.lean` and `Iter.lean` run them) -/
+theorem C06_translated_functions : T.translatedFunctions =
+    ["asStr_match", "asStr_table_gapless", "asStr_table_holes", "debug", "display", "fromStrFn_match", "fromStrFn_table_gapless",
+     "fromStrFn_table_holes", "fromStrTrait_match", "fromStrTrait_table_gapless", "fromStrTrait_table_holes", "intoFn", "intoStr",
+     "intoTrait", "iter_DoubleEnded_next_back_nextAndBack", "iter_ExactSize_len_nextAndBack", "iter_Iterator_next_nextAndBack",
+     "iter_Iterator_size_hint_nextAndBack", "iter_nextAndBack", "iter_range", "iter_table", "iter_tableInline", "names",
+     "nextBack_gapless", "nextBack_holes", "next_gapless", "next_holes", "range_gapless_nextAndBack", "range_gapless_range",
+     "range_gapless_table", "range_holes_nextAndBack", "range_holes_table", "tryFromFn_gapless", "tryFromFn_holes",
+     "tryFromTrait_gapless", "tryFromTrait_holes"] := by
+  decide
+
 /-- `iter()` as the source is written now — its constructor in each mode and the hand-written
 `next_and_back` methods — is observationally a cursor over the sorted variants under every finite history -/
 theorem C06_source (D : Derive) (tg : Target) (md : Modes) (h : D.WF) (ht : tg.WF)
